@@ -129,3 +129,10 @@ def REM(r):
 def TAKE(r, length):
     """how many bytes a read of `length` consumes"""
     return min(length, REM(r))
+
+
+def SANB(b, san):
+    """string sanitisation of one byte: y-diaeresis (0xFF) becomes 'y' (0x79) when the mode is on"""
+    if san and b == 0xFF:
+        return 0x79
+    return b
